@@ -259,35 +259,34 @@ theorem fprSub_wp (N : Nat) (f : Field) (hf : 32 ≤ f.cap) (pkt : Octets) : Wp 
   unfold fprSub; wp
 
 theorem blockSub_wp (N : Nat) (h : Heap) (old mem : Nat) (pkt : Octets) (hN : pkt.length ≤ N) :
-    Wp N (blockSub h old mem pkt) (fun _ => True) := by
+    Wp N (blockSub h old mem pkt) (fun r => r.2 ≤ N) := by
   unfold blockSub; wp
 
 /-- the notation lengths a caller reads back stay inside the two arrays -/
-def SubPost (r : Nat × Nat × Nat × Nat × SubSt) : Prop :=
-  r.2.1 ≤ Field.notation_name.cap ∧ r.2.2.1 ≤ Field.notation_value.cap
+def SubPost (N : Nat) (r : Nat × Nat × Nat × Nat × SubSt) : Prop :=
+  r.2.1 ≤ Field.notation_name.cap ∧ r.2.2.1 ≤ Field.notation_value.cap ∧ r.2.2.2.2.emb ≤ N
 
 set_option maxRecDepth 100000 in
-theorem subBody_wp (N : Nat) (type : Nat) (pkt : Octets) (st : SubSt) (hN : pkt.length ≤ N) :
-    Wp N (subBody type pkt st) SubPost := by
-  have h0 : SubPost (0, 0, 0, 0, st) → True := fun _ => trivial
+theorem subBody_wp (N : Nat) (type : Nat) (pkt : Octets) (st : SubSt) (hN : pkt.length ≤ N) (hst : st.emb ≤ N) :
+    Wp N (subBody type pkt st) (SubPost N) := by
   unfold subBody
   split
   all_goals first
-    | (apply wpb_of (timeSub_wp N pkt); intro _ _; apply wp_pure; simp [SubPost])
-    | (apply wpb_of (boolSub_wp N pkt); intro _ _; apply wp_pure; simp [SubPost])
-    | (apply wpb_of (copyAll_wp N _ _ pkt); intro _ _; apply wp_pure; simp [SubPost])
-    | (apply wpb_of (blockSub_wp N _ _ _ pkt hN); intro _ _; apply wp_pure; simp [SubPost])
-    | (apply wpb_of (fprSub_wp N _ (by decide) pkt); intro _ _; apply wp_pure; simp [SubPost])
-    | (apply wp_pure; simp [SubPost])
+    | (apply wpb_of (timeSub_wp N pkt); intro _ _; apply wp_pure; simp [SubPost, hst])
+    | (apply wpb_of (boolSub_wp N pkt); intro _ _; apply wp_pure; simp [SubPost, hst])
+    | (apply wpb_of (copyAll_wp N _ _ pkt); intro _ _; apply wp_pure; simp [SubPost, hst])
+    | (apply wpb_of (blockSub_wp N _ _ _ pkt hN); intro r hr; apply wp_pure; simp [SubPost, hst, hr])
+    | (apply wpb_of (fprSub_wp N _ (by decide) pkt); intro _ _; apply wp_pure; simp [SubPost, hst])
+    | (apply wp_pure; simp [SubPost, hst])
     | (unfold SubPost; wp)
 
 theorem subHead_wp (N : Nat) (buf : Octets) :
     Wp N (subHead buf) (fun h => (h.1 = 2 ∨ h.1 = 3 ∨ h.1 = 6) ∧ h.1 ≤ buf.length ∧ h.2 < 2 ^ 32) := by
   unfold subHead; wp
 
-theorem subDecodeT_wp (N : Nat) (buf : Octets) (st : SubSt) (hN : buf.length ≤ N) :
+theorem subDecodeT_wp (N : Nat) (buf : Octets) (st : SubSt) (hN : buf.length ≤ N) (hst : st.emb ≤ N) :
     Wp N (subDecodeT buf st) (fun o => o.nl ≤ Field.notation_name.cap ∧ o.vl ≤ Field.notation_value.cap ∧
-      2 ≤ o.used ∧ o.used ≤ buf.length) := by
+      2 ≤ o.used ∧ o.used ≤ buf.length ∧ o.st.emb ≤ N) := by
   unfold subDecodeT
   apply wpb_of (subHead_wp N buf); intro h hh
   dsimp only
@@ -297,23 +296,23 @@ theorem subDecodeT_wp (N : Nat) (buf : Octets) (st : SubSt) (hN : buf.length ≤
   have hfit : h.1 + (h.2 - 1) ≤ buf.length := by
     revert hshort; wp_unfold; omega
   apply wpb_slice _ _ _ _ _ ⟨by omega, hfit⟩
-  apply wpb_of (subBody_wp N _ _ st (by simp only [List.length_take, List.length_drop]; omega)); intro r hr
+  apply wpb_of (subBody_wp N _ _ st (by simp only [List.length_take, List.length_drop]; omega) hst); intro r hr
   apply wpb_eraseFront _ _ _ _ hfit
   apply wp_pure
-  exact ⟨hr.1, hr.2, by dsimp only; omega, hfit⟩
+  exact ⟨hr.1, hr.2.1, by dsimp only; omega, hfit, hr.2.2⟩
 
-theorem subParseT_wp (N : Nat) (fuel : Nat) (buf : Octets) (st : SubSt) (tag iters : Nat) (hN : buf.length ≤ N) :
-    Wp N (subParseT fuel buf st tag iters) (fun _ => True) := by
+theorem subParseT_wp (N : Nat) (fuel : Nat) (buf : Octets) (st : SubSt) (tag iters : Nat) (hN : buf.length ≤ N)
+    (hst : st.emb ≤ N) : Wp N (subParseT fuel buf st tag iters) (fun r => r.2.1.emb ≤ N) := by
   induction fuel generalizing buf st tag iters with
   | zero => unfold subParseT; exact wp_refuse _ _
   | succ fuel ih =>
     unfold subParseT
     apply wp_ite
-    · intro _; exact wp_pure _ _ trivial
+    · intro _; exact wp_pure _ _ hst
     · intro _
-      apply wpb_of (subDecodeT_wp N buf st hN); intro o ho
-      have hrec : ∀ tg, Wp N (subParseT fuel (List.drop o.used buf) o.st tg (iters + 1)) (fun _ => True) :=
-        fun tg => ih _ _ _ _ (by simp only [List.length_drop]; omega)
+      apply wpb_of (subDecodeT_wp N buf st hN hst); intro o ho
+      have hrec : ∀ tg, Wp N (subParseT fuel (List.drop o.used buf) o.st tg (iters + 1)) (fun r => r.2.1.emb ≤ N) :=
+        fun tg => ih _ _ _ _ (by simp only [List.length_drop]; omega) ho.2.2.2.2
       have hfp : (if o.rver = 4 then 20 else if o.rver = 5 then 32 else 0) ≤ 32 := by
         split
         · omega
